@@ -63,7 +63,7 @@ func checkC05(c *Ctx) (string, []string) {
 
 	// loads decide readability by the page's presence in the table: no page may then carry the access value
 	// "inaccessible" (a revoked page must leave the table), unless the load tests the access of each page it reads
-	c.Rule("C05.mapped-accessible", "loadFromMemory reads a page as soon as it is present in the page table, so every store to Page.Access and every Page literal in package PVM gives the page a value that is never MemoryInaccessible (constants ReadOnly/ReadWrite, through merges and parameters at every call site) — or loadFromMemory itself tests the access of each page it reads", 4)
+	c.Rule("C05.mapped-accessible", "loadFromMemory reads a page as soon as it is present in the page table, so every store to Page.Access and every Page literal in package PVM gives the page a value that is never MemoryInaccessible (constants ReadOnly/ReadWrite, through merges and parameters at every call site) — or loadFromMemory itself tests the access of each page it reads", 2)
 	{
 		loadTestsAccess := true
 		allInstrs(ld, func(in ssa.Instruction) {
@@ -124,6 +124,23 @@ func checkC05(c *Ctx) (string, []string) {
 					}
 				}
 				return n > 0 && f.Object() != nil && !f.Object().Exported(), "parameter of " + f.Name()
+			case *ssa.Call:
+				// a package helper: every value it returns
+				g := x.Call.StaticCallee()
+				if g == nil || len(g.Blocks) == 0 || g.Pkg == nil || !strings.HasSuffix(g.Pkg.Pkg.Path(), "/PVM") {
+					return false, abbr(exprStr(v, shapeOpts))
+				}
+				okAll, n := true, 0
+				why := ""
+				allInstrs(g, func(in ssa.Instruction) {
+					if r, isR := in.(*ssa.Return); isR && len(r.Results) >= 1 {
+						n++
+						if ok, w := neverInacc(retResults(r)[0], d+1); !ok {
+							okAll, why = false, w
+						}
+					}
+				})
+				return okAll && n > 0, "returned by " + g.Name() + ": " + why
 			case *ssa.UnOp:
 				if a, isA := x.X.(*ssa.Alloc); isA && x.Op == token.MUL {
 					okAll, n := true, 0
